@@ -18,7 +18,9 @@ fn jv16(j: &J) -> Result<Value, String> {
     if let Some(f) = m.get("fn") {
       let mut params = vec![];
       for (i, p) in f.get("params").and_then(|x| x.as_array()).ok_or("fn.params must be a list")?.iter().enumerate() {
-        params.push((Name::from(format!("p{}", i).as_str()), jtype(p)?));
+        // parameter names in DESCENDING alphabetical order (q9, q8, ...): the order of a function type's parameter types is the order of
+        // declaration, not of the names
+        params.push((Name::from(format!("q{}", 9 - i).as_str()), jtype(p)?));
       }
       let result = jtype(f.get("result").ok_or("fn.result missing")?)?;
       let body = FunctionBody::LiteralExpression(Arc::new(Box::new(|_: &Scope| Value::Null(None))));
